@@ -162,3 +162,26 @@ def f18_pattern(spec, mods):
             if at_end and barrier:
                 return True
     return False
+
+
+def zero_block_role(spec, mods):
+    """role for signatures (from the request): does the module contain a block that is zero-sized on input, and does an
+    insertion of this request land exactly at its address (directly, or once the deletions of the request are applied)?"""
+    blocks = [b for s in spec["sections"] for b in s["blocks"]]
+    zs = [j for j, b in enumerate(blocks) if not b["i"]]
+    if not zs:
+        return "plain"
+    role = "zero-sized-block"
+    for zi in zs:
+        for m in mods or ():
+            if m["op"] not in ("ins", "rep"):
+                continue
+            j = next(i for i, b in enumerate(blocks) if b["n"] == m["b"])
+            n = len(blocks[j]["i"])
+            gone = set()
+            for d in mods:
+                if d["op"] in ("del", "rep") and d["b"] == m["b"]:
+                    gone |= set(range(d["k"], d["k"] + d.get("n", 0)))
+            if j == zi or (j == zi + 1 and all(i in gone for i in range(m["k"]))) or (j == zi - 1 and all(i in gone for i in range(m["k"], n))):
+                role = "insertion-at-zero-sized-block"
+    return role
